@@ -19,7 +19,7 @@ RULE = ("(a) exhaustive: every connected graph of the networkx atlas on <= 5 nod
         "one motif (b); distinct = canonical JSON")
 ASSUMPTIONS = ["motifs evaluated on one evaluator carry distinct names (the documented cache key)",
                "the equation code is duck typed: exact Poly/Fraction arguments flow through unchanged arithmetic"]
-BUDGET = {"quick": (16, 60), "thorough": (16, 600)}
+BUDGET = {"quick": (16, 60), "thorough": (16, 1500)}
 EXHAUSTIVE = True
 EXHAUSTIVE_NOTE = "family (a) of RULE: all connected atlas graphs in the stated range x all focal vertices"
 ENUM_CHUNK = 4
